@@ -20,6 +20,7 @@ type absEval struct {
 	name    *ssa.Parameter
 	rep     string
 	unknown string
+	depth   int
 }
 
 func (e *absEval) str(v ssa.Value) (string, bool) {
@@ -64,6 +65,31 @@ func (e *absEval) boolean(v ssa.Value) (bool, bool) {
 			return !b, ok
 		}
 	case *ssa.BinOp:
+		// err (==|!=) nil where err is the result of a helper that checks the name:
+		// the helper is evaluated for the same representative
+		if (x.Op == token.EQL || x.Op == token.NEQ) && (isNilConst(x.Y) || isNilConst(x.X)) {
+			side := x.X
+			if isNilConst(x.X) {
+				side = x.Y
+			}
+			if cl, ok := side.(*ssa.Call); ok {
+				if h := cl.Common().StaticCallee(); h != nil && len(h.Blocks) > 0 && e.depth < 3 {
+					for i, a := range cl.Common().Args {
+						if a == ssa.Value(e.name) && i < len(h.Params) {
+							sub := &absEval{name: h.Params[i], rep: e.rep, depth: e.depth + 1}
+							switch sub.run(h) {
+							case "accept":
+								return x.Op == token.EQL, true
+							case "reject":
+								return x.Op == token.NEQ, true
+							}
+							e.unknown = sub.unknown
+							return false, false
+						}
+					}
+				}
+			}
+		}
 		if b, ok := x.X.Type().Underlying().(*types.Basic); ok && b.Info()&types.IsString != 0 {
 			l, ok1 := e.str(x.X)
 			r, ok2 := e.str(x.Y)
